@@ -479,6 +479,47 @@ def oracle(ctx, deep=False):
             if bad:
                 res.counterexample(f"cl-vs-numba-{kt}-{width}", f"OpenCL {fname} differs from Numba {nb_reg[kt]} at a "
                                    f"concrete point (lane {bad['lane']}, precision {bad['precision']})", **bad)
+    # helmholtz_gradient (all widths, lanes, precisions) against the COMPILED FMM helper kernel's target gradient
+    import bempp_cl.api.fmm.helpers as fh
+    for width in ("novec", "vec4", "vec8", "vec16"):
+        w = 1 if width == "novec" else int(width[3:])
+        bad = None
+        for s in range(npts):
+            scale = 10 ** rng.uniform(-2, 2)
+            x, _, nx, _ = _rand_inputs(rng, scale)
+            p0 = rng.uniform(-3, 3) / max(scale, 1.0)
+            p1 = 0.0 if s % 2 == 0 else rng.uniform(0.1, 2) / max(scale, 1.0)
+            branch = "im0" if p1 == 0 else "imnz"
+            env = {"c4pi": 1.0 / (4 * np.pi), "p0": p0, "p1": p1}
+            ys = []
+            for l in range(w):
+                _, yy, _, nyy = _rand_inputs(rng, scale)
+                xx = _rand_inputs(rng, scale)[0]
+                yl = [x[i] + (yy[i] - xx[i]) for i in range(3)]
+                ys.append(yl)
+                for i in range(3):
+                    env[f"x{i}"], env[f"nx{i}"] = x[i], nx[i]
+                    env[f"y{i}_{l}"], env[f"ny{i}_{l}"] = yl[i], nyy[i]
+                    if w == 1:
+                        env[f"y{i}"], env[f"ny{i}"] = yl[i], nyy[i]
+            ref = fh.helmholtz_kernel(np.array(x).reshape(3, 1), np.array(ys).T.copy(), np.array([p0, p1]),
+                                      np.dtype("float64"), np.dtype("complex128"))
+            for prec in (0, 1):
+                slots = cl.get((f"helmholtz_gradient_{width}", prec, branch))
+                if slots is None:
+                    continue
+                for l in range(w):
+                    for i in range(3):
+                        got = complex(st.evaluate(slots[(2 * i, l)], env), st.evaluate(slots[(2 * i + 1, l)], env))
+                        want = complex(ref[4 * l + 1 + i])
+                        tol = 1e-10 * max(abs(want), 1e-300) * (1 + (abs(p0) + abs(p1)) * scale)
+                        res.case(("grad", width, s, l, i, prec), nontrivial=(p1 != 0))
+                        if abs(got - want) > tol and bad is None:
+                            bad = dict(opencl=f"helmholtz_gradient_{width}", precision=prec, lane=l, component=i, inputs=env,
+                                       opencl_value=[got.real, got.imag], fmm_helper_value=[want.real, want.imag])
+        if bad:
+            res.counterexample(f"cl-vs-fmm-helmholtz_gradient-{width}", f"OpenCL helmholtz_gradient_{width} differs from the "
+                               f"gradient of the Numba FMM helper kernel helmholtz_kernel at a concrete point", **bad)
     res.samples = (_STATE.get("samples") or []) + res.samples
     return res
 
